@@ -72,6 +72,11 @@ func ScenarioByName(name string) *Scenario {
 		sc = Leave(arg(1), arg(2), arg(3))
 	case "s1":
 		sc = S1Scenario(arg(1), arg(2))
+	case "win":
+		// "win:<nodes>:<leave or -1>:<base…>": base scenario with the S2 window alphabet over nodes 0..n-1
+		base := ScenarioByName(strings.Join(p[3:], ":"))
+		sc = base
+		sc.Alphabet = WindowAlphabet(arg(1), arg(2))
 	default:
 		if f, ok := extraScenarios[p[0]]; ok {
 			sc = f(p)
@@ -285,6 +290,38 @@ func RunItem(it Item) *Result {
 			suffix(x)
 		}
 		finish(x, st)
+	case "s2":
+		// seed prefix [0,Cut) + every action sequence of length Depth over the
+		// scenario's window alphabet (below the given Prefix) + fair suffix
+		alpha := sc.Alphabet
+		var rec func(seq []int)
+		rec = func(seq []int) {
+			if len(seq) == it.Depth {
+				st := &mon.Stats{}
+				x := NewExec(sc, MonitorFactory(it.Mons, st))
+				for pos, a := range sc.Seed {
+					if pos >= it.Cut || x.Dead() {
+						break
+					}
+					x.Step(a)
+				}
+				for _, k := range seq {
+					if x.Dead() {
+						break
+					}
+					x.Step(alpha[k])
+				}
+				if it.Suffix > 0 && !x.Dead() {
+					suffix(x)
+				}
+				finish(x, st)
+				return
+			}
+			for k := range alpha {
+				rec(append(seq, k))
+			}
+		}
+		rec(append([]int{}, it.Prefix...))
 	default:
 		panic("unknown mode " + it.Mode)
 	}
@@ -318,4 +355,29 @@ func chainDigest(c *sim.Cluster) string {
 		best = best[len(best)-48:]
 	}
 	return fmt.Sprintf("%d:%s", n, best)
+}
+
+// WindowAlphabet: every ordered gossip pair, half of the pairs truncated to one
+// event, a submission per node, optionally a leave request.
+func WindowAlphabet(n, leave int) []Action {
+	var a []Action
+	for i := 0; i < n; i++ {
+		for j := 0; j < n; j++ {
+			if i != j {
+				a = append(a, Action{K: "G", A: i, B: j})
+			}
+		}
+	}
+	for i := 0; i < n; i++ {
+		for j := 0; j < n; j++ {
+			if i != j && (i+j)%2 == 1 {
+				a = append(a, Action{K: "G", A: i, B: j, Lim: 1})
+			}
+		}
+		a = append(a, Action{K: "T", A: i})
+	}
+	if leave >= 0 {
+		a = append(a, Action{K: "L", A: leave})
+	}
+	return a
 }
